@@ -152,7 +152,9 @@ class _ShapeOps:
                 env["@trace"] = env.get("@trace", ()) + (("call", fv, tuple(norm(a) for a in node.ast.args),
                                                         tuple((k.arg, norm(k.value)) for k in node.ast.keywords)),)
         elif node.kind == "await":
-            env["@trace"] = env.get("@trace", ()) + (("await", ev.eval(node.info.get("value"), env)),)
+            v = ev.eval(node.info.get("value"), env)
+            if not (isinstance(v, tuple) and len(v) == 2 and v[0] == "@coro"):  # (a library coroutine is not a user awaitable)
+                env["@trace"] = env.get("@trace", ()) + (("await", v),)
         elif node.kind == "yield":
             env["@trace"] = env.get("@trace", ()) + (("yield", ev.eval(node.info.get("value"), env)),)
 
@@ -209,49 +211,109 @@ def r19_2(ctx) -> None:
     ctx.tables["any_iter shapes"] = table
 
 
+class _ApplyOps(_ShapeOps):
+    """apply(): positional awaitables A1, A2 and keyword awaitables k=V1, j=V2; list / dict
+    comprehensions over them are evaluated element-wise (their awaits are traced by the CFG)."""
+
+    def call(self, func, args, kwargs, node, env):
+        if isinstance(node.func, ast.Attribute) and node.func.attr in ("items", "keys", "values") and not node.args:
+            recv = self.ev.eval(node.func.value, env)
+            if recv in self.sc.get("dicts", {}):
+                return ("view", node.func.attr, recv)
+        return super().call(func, args, kwargs, node, env)
+
+    def _elements(self, v):
+        if v in self.sc.get("items", {}):
+            return list(self.sc["items"][v])
+        if isinstance(v, tuple) and v[:1] == ("view",):
+            pairs = self.sc["dicts"][v[2]]
+            return {"items": [(k, x) for k, x in pairs], "keys": [k for k, _x in pairs], "values": [x for _k, x in pairs]}[v[1]]
+        return None
+
+    def next(self, node, env):
+        source = self.ev.eval(node.info.get("iter"), env)
+        elems = self._elements(source)
+        if elems is None:
+            return super().next(node, env)
+        pos = dict(env.get("@pos", {}))
+        key = ("loop", node.id)
+        i = pos.get(key, 0)
+        if i >= len(elems):
+            pos[key] = 0
+            env["@pos"] = pos
+            return STOP
+        pos[key] = i + 1
+        env["@pos"] = pos
+        return elems[i]
+
+    def other(self, e, env, ev):
+        if isinstance(e, (ast.ListComp, ast.GeneratorExp, ast.DictComp)) and len(e.generators) == 1 and not e.generators[0].ifs:
+            g = e.generators[0]
+            elems = self._elements(ev.eval(g.iter, env))
+            if elems is None:
+                return UNKNOWN
+            out = []
+            for x in elems:
+                env2 = dict(env)
+                _bind(g.target, x, env2)
+                out.append((ev.eval(e.key, env2), ev.eval(e.value, env2)) if isinstance(e, ast.DictComp) else ev.eval(e.elt, env2))
+            return ("dict", tuple(out)) if isinstance(e, ast.DictComp) else ("list", tuple(out))
+        if isinstance(e, ast.Starred):
+            return ("*", ev.eval(e.value, env))
+        return UNKNOWN
+
+    def visit(self, node, env, ev):
+        if node.kind == "call":
+            f = node.ast.func
+            if isinstance(f, ast.Name) and env.get(f.id) == "FUNC":
+                pos = tuple(ev.eval(a.value if isinstance(a, ast.Starred) else a, env) for a in node.ast.args)
+                kws = tuple((k.arg, ev.eval(k.value, env)) for k in node.ast.keywords)
+                env["@trace"] = env.get("@trace", ()) + (("call", "FUNC", pos, kws),)
+                vals = dict(env.get("@callvals", {}))
+                vals[id(node.ast)] = "RESULT"
+                env["@callvals"] = vals
+                return
+        super().visit(node, env, ev)
+
+
+def _bind(target, value, env) -> None:
+    if isinstance(target, ast.Name):
+        env[target.id] = value
+    elif isinstance(target, (ast.Tuple, ast.List)) and isinstance(value, tuple) and len(value) == len(target.elts):
+        for t, v in zip(target.elts, value):
+            _bind(t, v, env)
+
+
 def r19_3(ctx) -> None:
     u = ctx.unit("asynctools.apply")
     node = u.node
     f = u.param_names()[0]
     va = node.args.vararg.arg if node.args.vararg else None
     kw = node.args.kwarg.arg if node.args.kwarg else None
-    rets = [n for n in own_nodes(node) if isinstance(n, ast.Return)]
-    ok = len(rets) == 1 and isinstance(rets[0].value, ast.Call) and norm(rets[0].value.func) == f
-    ctx.check(ok and va is not None and kw is not None, "R19.3", u, rets[0] if rets else "apply",
-              "apply returns the value of a single call of the function")
-    if not ok:
+    ctx.check(va is not None and kw is not None, "R19.3", u, "apply", "apply takes (*args, **kwargs)")
+    if va is None or kw is None:
         return
-    call = rets[0].value
-    cfg = cfg_of(u)
-    rnode = [n for n in cfg.nodes if n.kind == "return" and not n.tag][0]
-
-    def through_local(e):
-        if isinstance(e, ast.Name):
-            from .common import name_value
-            return name_value(ctx, u, cfg, rnode, e.id) or e
-        return e
-
-    pos = [a for a in call.args]
-    ok = len(pos) == 1 and isinstance(pos[0], ast.Starred)
-    c = through_local(pos[0].value) if ok else None
-    ok = ok and isinstance(c, ast.ListComp)
-    if ok:
-        g = c.generators[0]
-        ok = len(c.generators) == 1 and norm(g.iter) == va and not g.ifs and isinstance(c.elt, ast.Await) \
-            and norm(c.elt.value) == norm(g.target)
-    ctx.check(ok, "R19.3", u, call, "every positional argument is awaited exactly once, in order")
-    kws = call.keywords
-    ok = len(kws) == 1 and kws[0].arg is None
-    c = through_local(kws[0].value) if ok else None
-    ok = ok and isinstance(c, ast.DictComp)
-    if ok:
-        g = c.generators[0]
-        ok = len(c.generators) == 1 and norm(g.iter) == f"{kw}.items()" and not g.ifs and isinstance(g.target, ast.Tuple) \
-            and norm(c.key) == norm(g.target.elts[0]) and isinstance(c.value, ast.Await) \
-            and norm(c.value.value) == norm(g.target.elts[1])
-    ctx.check(ok, "R19.3", u, call, "every keyword argument is awaited exactly once and passed under its own name")
-    awaits = [n for n in own_nodes(node) if isinstance(n, ast.Await)]
-    ctx.check(len(awaits) == 2, "R19.3", u, "apply", "no other await (the function itself is called synchronously, as documented)")
+    for n_pos, n_kw in ((0, 0), (2, 0), (0, 2), (2, 2)):
+        ctx.count("apply_cells")
+        pos = [f"A{i + 1}" for i in range(n_pos)]
+        pairs = [("k", "V1"), ("j", "V2")][:n_kw]
+        sc = {"items": {"ARGS": pos}, "dicts": {"KWARGS": pairs}, "callables": {"FUNC": "RESULT"}}
+        ops = _ApplyOps(ctx, u.module, sc)
+        outs = Machine(cfg_of(u), ops, resolver=make_resolver(ctx, u, ops, coroutines=True)).run({f: "FUNC", va: "ARGS", kw: "KWARGS"})
+        want_awaits = tuple(("await", x) for x in pos + [v for _k, v in pairs])
+        want_call = ("call", "FUNC", (("list", tuple(("val", a) for a in pos)),),
+                     ((None, ("dict", tuple((k, ("val", v)) for k, v in pairs))),))
+        got = set()
+        for oc in outs:
+            tr = oc.env.get("@trace", ())
+            awaits = tuple(e for e in tr if e[0] == "await")
+            calls = tuple(e for e in tr if e[0] == "call")
+            got.add((awaits, calls, oc.returned if oc.terminal.kind == "exit" else ("raises", str(oc.raised))))
+        ok = got == {(want_awaits, (want_call,), "RESULT")}
+        ctx.check(ok, "R19.3", u, "apply",
+                  f"[{n_pos} positional, {n_kw} keyword awaitables] every argument is awaited exactly once, in order, and the "
+                  "function is called once with the awaited values in their positions / under their own names; its value is returned",
+                  witness=str(sorted(map(str, got)))[:500])
 
 
 def r19_4(ctx) -> None:
